@@ -61,7 +61,11 @@ def braid_neighbours(m, w):
             yield w[:i] + tuple(t if j % 2 == 0 else s for j in range(k)) + w[i + k:]
 
 
-def braid_class(m, w):
+class Overflow(Exception):
+    pass
+
+
+def braid_class(m, w, limit=None):
     w = tuple(w)
     seen = {w}
     todo = [w]
@@ -71,6 +75,8 @@ def braid_class(m, w):
             if v not in seen:
                 seen.add(v)
                 todo.append(v)
+        if limit is not None and len(seen) > limit:
+            raise Overflow()
     return seen
 
 
@@ -117,14 +123,17 @@ class TitsOracle:
         spheres = [{(): frozenset([()])}]
         total = 1
         while spheres[-1] and len(spheres) < 64:
-            nxt = self._next_sphere(spheres[-1])
+            try:
+                nxt = self._next_sphere(spheres[-1], budget=cap - total)
+            except Overflow:
+                return None
             total += sum(len(c) for c in nxt.values())
             if total > cap:
                 return None
             spheres.append(nxt)
         return len(spheres) - 1 if not spheres[-1] else None
 
-    def _next_sphere(self, sphere):
+    def _next_sphere(self, sphere, budget=None):
         nxt = {}
         seen_words = set()
         for name, cls in sphere.items():
@@ -135,12 +144,14 @@ class TitsOracle:
                 w = name + (s,)
                 if w in seen_words:
                     continue
-                c = braid_class(self.m, w)
+                c = braid_class(self.m, w, limit=budget)
                 for u in c:
                     if has_square(u) >= 0:
                         raise OracleError("exchange argument and Tits' theorem disagree "
                                           "on %r" % (u,))
                 seen_words.update(c)
+                if budget is not None and len(seen_words) > budget:
+                    raise Overflow()
                 nxt[min(c)] = frozenset(c)
         return nxt
 
